@@ -240,10 +240,120 @@ func checkC24(p *Prog, r *Report) {
 						}
 					}
 				}
+				// ... the whole changed set: nothing may filter it before the reverse-dependency search (a changed target
+				// that the include/exclude flags hide still has dependents that are shown)
+				shouldInclude := p.Fn("core", "BuildState.ShouldInclude")
+				eachInstr(ct, false, func(_ *ssa.Function, i ssa.Instruction) {
+					c, ok := i.(*ssa.Call)
+					if !ok {
+						return
+					}
+					b, ok := c.Call.Value.(*ssa.Builtin)
+					if !ok || b.Name() != "append" || !instrDominatesOrReaches(ct, c, s) {
+						return
+					}
+					// is this append feeding the labels argument?
+					feeds := false
+					for _, a := range cc.Args {
+						if derivesFromValue(a, c) {
+							feeds = true
+						}
+					}
+					if !feeds {
+						return
+					}
+					for _, f := range factsAt(c) {
+						if fc, ok := f.V.(*ssa.Call); ok && shouldInclude != nil && callsFn(fc, shouldInclude) {
+							r.bad(rule, "changed set is not filtered before the reverse-dependency search", p.pos(c.Pos()), fnName(ct), "a changed target is added to the seeds of FindRevdeps only if ShouldInclude(target): targets that depend on a changed but filtered-out target (e.g. a `manual` genrule, or one without the --include label) are never reported")
+						}
+					}
+				})
 				r.check(passes && guardOK && fromChanged, rule, "FindRevdeps(changed labels, level) when level != 0", p.pos(s.Pos()), fnName(ct), "level parameter passed through, guarded only by level != 0, labels derive from the changed set", "reverse dependencies are not requested with the caller's level for the changed set (or the guard is not `level != 0`): transitively affected targets would be missed")
 			}
 		}
 	}
+	// (5) the upward search for the owning package tries the root package before giving up
+	rule = "E5.owner-search-reaches-root"
+	{
+		pkgFn := p.Fn("core", "BuildGraph.Package")
+		n := 0
+		for _, fn := range p.Funcs("query") {
+			var dirCalls, pkgCalls []*ssa.Call
+			eachInstr(fn, false, func(_ *ssa.Function, i ssa.Instruction) {
+				if c, ok := i.(*ssa.Call); ok {
+					if isCallTo(c, "path/filepath.Dir") {
+						dirCalls = append(dirCalls, c)
+					}
+					if pkgFn != nil && callsFn(c, pkgFn) {
+						pkgCalls = append(pkgCalls, c)
+					}
+				}
+			})
+			if len(dirCalls) == 0 || len(pkgCalls) == 0 {
+				continue
+			}
+			loops := loopBlocks(fn)
+			for _, dc := range dirCalls {
+				// the loop that re-applies Dir to its own result
+				var hdr *ssa.BasicBlock
+				for h, blocks := range loops {
+					for _, b := range blocks {
+						if b == dc.Block() {
+							if hdr == nil || len(blocks) < len(loops[hdr]) {
+								hdr = h
+							}
+						}
+					}
+				}
+				if hdr == nil {
+					continue
+				}
+				inLoop := map[*ssa.BasicBlock]bool{}
+				for _, b := range loops[hdr] {
+					inLoop[b] = true
+				}
+				n++
+				rootCapable := func(j ssa.Instruction) bool {
+					c, ok := j.(*ssa.Call)
+					if !ok || !callsFn(c, pkgFn) {
+						return false
+					}
+					for x := range backSlice(c.Call.Args[1], SliceOpts{}) {
+						if s, ok := constString(x); ok && s == "" {
+							return true
+						}
+					}
+					return false
+				}
+				// can the loop be left (through its header, i.e. the search ran out of directories) after this Dir()
+				// without a Package() lookup that can name the root package?
+				escapes := false
+				for _, succ := range hdr.Succs {
+					if inLoop[succ] || len(succ.Instrs) == 0 {
+						continue
+					}
+					if existsPath(fn, dc, succ.Instrs[0], func(j ssa.Instruction) bool {
+						if rootCapable(j) {
+							return true
+						}
+						// leaving the loop any other way than through the header (found: break / return) is not "giving up"
+						return !inLoop[j.Block()] && j.Block() != succ
+					}) {
+						escapes = true
+					}
+				}
+				r.check(!escapes, rule, fn.Name()+": walking up from a file ends with the root package", p.pos(dc.Pos()), fnName(fn), "every way of running out of parent directories has looked up the package named \"\"", "the search for the package that owns a changed file can run out of parent directories without ever trying the root package: a file in a sub-directory that has no BUILD file of its own, consumed by a root-package target, changes nothing")
+			}
+		}
+		if n == 0 {
+			r.unresolved(rule, "upward directory walk with Graph.Package lookups in package query")
+		}
+	}
+}
+
+// instrDominatesOrReaches: a can execute before b.
+func instrDominatesOrReaches(fn *ssa.Function, a, b ssa.Instruction) bool {
+	return instrDominates(a, b) || existsPath(fn, a, b, nil)
 }
 
 // pathAvoidsWithinIteration: starting at block `from`, can control come back
